@@ -53,6 +53,15 @@ pub struct Case {
     /// bytes; the request is then sent again (twice) and judged as usual
     #[serde(default)]
     pub reset_first: Option<u16>,
+    /// when > 0: one more text field whose value has BIG_TEXT_SIZES[big_text - 1] bytes (a text field is a text field at any size)
+    #[serde(default)]
+    pub big_text: u8,
+}
+
+pub const BIG_TEXT_SIZES: &[usize] = &[8192, 65535, 65536, 65537, 200_000];
+
+fn big_text_value(n: usize) -> String {
+    "0123456789 abc\r\n--def;\u{e9}".chars().cycle().take(n).collect::<String>().chars().scan(0usize, |len, c| { *len += c.len_utf8(); if *len <= n { Some(c) } else { None } }).collect()
 }
 
 pub const SHORT_WRITES: &[usize] = &[1, 7, 1460, 4096, 8191, 8192, 8193, 16000];
@@ -181,7 +190,11 @@ fn send_form(case: &Case, prev_boundary: &str) -> Result<(Sent, Vec<Part>), Outc
     let datas: Vec<Vec<u8>> = case.files.iter().map(|f| file_data(f, prev_boundary)).collect();
     let mut mb = attohttpc::MultipartBuilder::new();
     let mut expected: Vec<Part> = vec![];
-    for (k, v) in &case.texts {
+    let mut texts = case.texts.clone();
+    if case.big_text > 0 {
+        texts.push(("bigtext".to_string(), big_text_value(BIG_TEXT_SIZES[(case.big_text as usize - 1) % BIG_TEXT_SIZES.len()])));
+    }
+    for (k, v) in &texts {
         mb = mb.with_text(k, v);
         expected.push(Part { name: k.clone(), filename: None, content_type: None, data: v.as_bytes().to_vec() });
     }
@@ -301,9 +314,9 @@ non-trivial = >= 2 parts with a file, or data containing a delimiter look-alike,
 
     fn strategy(_tier: Tier) -> BoxedStrategy<Case> {
         prop_oneof![
-            1 => Just(Case { texts: vec![], files: vec![], short_write: 0, prior_content_type: 0, reset_first: None }),
-            30 => (proptest::collection::vec((name_strategy(), text_value()), 0..8), proptest::collection::vec(file_strategy(), 0..6), short_write_strategy(), prop_oneof![4 => Just(0u8), 1 => Just(1u8), 1 => Just(2u8)], prop_oneof![5 => Just(None), 1 => any::<u16>().prop_map(Some)])
-                .prop_map(|(texts, files, short_write, prior_content_type, reset_first)| Case { texts, files, short_write, prior_content_type, reset_first }),
+            1 => Just(Case { texts: vec![], files: vec![], short_write: 0, prior_content_type: 0, reset_first: None, big_text: 0 }),
+            30 => (proptest::collection::vec((name_strategy(), text_value()), 0..8), proptest::collection::vec(file_strategy(), 0..6), short_write_strategy(), prop_oneof![4 => Just(0u8), 1 => Just(1u8), 1 => Just(2u8)], prop_oneof![5 => Just(None), 1 => any::<u16>().prop_map(Some)], prop_oneof![6 => Just(0u8), 1 => 1u8..=BIG_TEXT_SIZES.len() as u8])
+                .prop_map(|(texts, files, short_write, prior_content_type, reset_first, big_text)| Case { texts, files, short_write, prior_content_type, reset_first, big_text }),
         ]
         .boxed()
     }
@@ -346,7 +359,8 @@ non-trivial = >= 2 parts with a file, or data containing a delimiter look-alike,
             boundaries.push(sent.boundary.clone());
             prev = sent.boundary;
         }
-        let nparts = case.texts.len() + case.files.len();
+        let nparts = case.texts.len() + case.files.len() + usize::from(case.big_text > 0);
+        ctx.label_if(case.big_text > 0, "large-text-field");
         let lookalike = case.files.iter().any(|f| matches!(f.kind, DataKind::Lookalike | DataKind::PrevBoundary | DataKind::CrLfDashes | DataKind::HeaderText));
         ctx.nontrivial = (nparts >= 2 && !case.files.is_empty()) || lookalike || total > 8192;
         ctx.label_if(nparts == 0, "empty-form");
